@@ -1,11 +1,17 @@
 package main
 
 import (
-	"reflect"
+	"encoding/json"
 	"fmt"
 	"go/constant"
 	"go/token"
 	"go/types"
+	"os"
+	"os/exec"
+	"path/filepath"
+	"reflect"
+	"regexp"
+	"strconv"
 	"strings"
 
 	"golang.org/x/tools/go/ssa"
@@ -319,7 +325,9 @@ func ruleC04_7(c *Ctx, r *Rep) {
 		}
 	}
 	// or a call to min(...)
-	for _, ci := range callsIn(fn, false, func(cal *ssa.Function, _ ssa.CallInstruction) bool { return cal.Name() == "Min" && fnPkgPath(cal) == "math" }) {
+	for _, ci := range callsIn(fn, false, func(cal *ssa.Function, _ ssa.CallInstruction) bool {
+		return cal.Name() == "Min" && fnPkgPath(cal) == "math"
+	}) {
 		_ = ci
 		clamp = true
 	}
@@ -1307,4 +1315,351 @@ func leadsToWake(c *Ctx, call *ssa.Call) bool {
 		}
 	}
 	return false
+}
+
+// ---------------------------------------------------------------------------
+// C04.9 (shared): no predicate list is built by appending twice to one base slice that has spare capacity. With
+// `base := make([]P, 0, 3)` (or any append result), `a := append(base, x)` and `b := append(base, y)` write the same
+// backing slot: the second silently replaces the first's predicate — the guard a statement was meant to carry is
+// gone although every line looks right. Reported when both appends can run in one execution.
+func ruleC04_9(c *Ctx, r *Rep) {
+	n := 0
+	for _, f := range c.Funcs {
+		pk := c.PkgOf(f)
+		if !(pk == "actions" || pk == "services") || c.testSupport(f) || c.EntShape().isGenerated(f) {
+			continue
+		}
+		var apps []*ssa.Call
+		for _, b := range f.Blocks {
+			for _, in := range b.Instrs {
+				if call, ok := in.(*ssa.Call); ok {
+					if bi, ok := call.Call.Value.(*ssa.Builtin); ok && bi.Name() == "append" && len(call.Call.Args) == 2 {
+						if sl, ok := call.Type().Underlying().(*types.Slice); ok {
+							if nm, ok := sl.Elem().(*types.Named); ok && nm.Obj().Pkg() != nil && strings.HasSuffix(nm.Obj().Pkg().Path(), "/ent/predicate") {
+								apps = append(apps, call)
+							}
+						}
+					}
+				}
+			}
+		}
+		for i, a := range apps {
+			for _, b := range apps[i+1:] {
+				if a.Call.Args[0] != b.Call.Args[0] {
+					continue
+				}
+				n++
+				// can both run? (one reaches the other, or they share a block)
+				both := a.Block() == b.Block() || reachable(a.Block(), b.Block(), nil, false) || reachable(b.Block(), a.Block(), nil, false)
+				spare := false
+				switch x := a.Call.Args[0].(type) {
+				case *ssa.MakeSlice:
+					l, lok := constInt(x.Len)
+					cp, cok := constInt(x.Cap)
+					spare = !(lok && cok && l == cp)
+				case *ssa.Call:
+					if bi, ok := x.Call.Value.(*ssa.Builtin); ok && bi.Name() == "append" {
+						spare = true
+					}
+				case *ssa.Phi, *ssa.Parameter, *ssa.UnOp:
+					spare = true
+				}
+				r.Check("C04.9", fmt.Sprintf("C04.9:aliased-append#%d@%s", n, c.Key(f)), b.Pos(), !(both && spare), "", "two predicate lists are appended to the same base slice, which may have spare capacity: the later append overwrites the predicate the earlier one added (a guard silently disappears from one of the statements)")
+			}
+		}
+	}
+	r.OK("C04.9", "C04.9:no-aliased-predicate-appends", 0, fmt.Sprintf("%d pairs of appends sharing a base examined", n))
+}
+
+// ---------------------------------------------------------------------------
+// C15.5: convergence needs every child table of topics to be emptied for a deleted topic. Children that have a prune
+// job (messages, subscriptions; deliveries below them) are reclaimed by it; a child table that no job deletes from
+// (snapshots) must be removed when the topic is soft-deleted — entirely: the delete carries exactly `fk IN (deleted
+// ids)`. With any further restriction the surviving children hold the NO ACTION foreign key and the topic prune fails
+// on every round from then on.
+func ruleC15_5(c *Ctx, r *Rep) {
+	fks, _, ok := c.entSchema()
+	if !ok {
+		r.Fail("C15.5", "C15.5:ent-schema", token.NoPos, "ent/migrate/schema.go tables not found")
+		return
+	}
+	pruned := map[string]bool{}
+	for _, sp := range append(append([]pruneSpec{}, pruneSpecs...), pruneSpecsRest...) {
+		pruned[sp.table] = true
+	}
+	n := 0
+	for _, f := range fks {
+		if f.RefTable != "topics" || f.OnDelete != "NoAction" || pruned[f.Table] {
+			continue
+		}
+		n++
+		stmts := c.findStmts(fnDelTopic, f.Table, "delete")
+		key := "C15.5:orphan-children-removed:" + f.Table + "@" + fnDelTopic
+		if len(stmts) == 0 {
+			r.Fail("C15.5", key, f.Pos, "no job prunes "+f.Table+" and DeleteTopic does not delete the topic's "+f.Table+": the rows keep the NO ACTION foreign key and the topic can never be pruned")
+			continue
+		}
+		for _, s := range stmts {
+			at := s.Atoms()
+			unk, _ := s.HasUnknownPred()
+			good := !unk && len(at) == 1 && at[0].Kind == "atom" && at[0].Col == f.Column && at[0].Op == "in"
+			r.Check("C15.5", key, s.Pos, good, "DELETE FROM "+f.Table+" WHERE "+f.Column+" IN (deleted ids)", "the delete of the topic's "+f.Table+" is narrowed by further predicates (or not keyed by "+f.Column+"): surviving rows hold the NO ACTION foreign key, the topic prune fails on every round and the dead topic is never reclaimed")
+		}
+	}
+	if n == 0 {
+		r.Fail("C15.5", "C15.5:floor", token.NoPos, "no un-pruned child table of topics found in the schema (snapshots expected)")
+	}
+}
+
+// ---------------------------------------------------------------------------
+// C17.1 (independence): each optional column is reported on its own. The response field fed by column X may sit under
+// a test of X, never under a test of a sibling column Y (except the documented nesting: the dead-letter attempts are
+// part of the dead-letter policy, which exists only with a dead-letter topic) — otherwise a subscription that has X
+// but not Y reads back without X although it was stored.
+func ruleC17_1indep(c *Ctx, r *Rep) {
+	fn := r.Anchor("C17.1", "services.entSubscriptionToGrpc")
+	if fn == nil {
+		return
+	}
+	cols := []string{"MinBackoff", "MaxBackoff", "MessageFilter", "PushEndpoint", "MaxDeliveryAttempts", "DeadLetterTopicID", "Labels", "MessageTTL", "TTL"}
+	nested := map[string]string{"MaxDeliveryAttempts": "DeadLetterTopicID"}
+	n := 0
+	for _, sp := range []struct{ typ, field, own string }{
+		{"Subscription", "Filter", "MessageFilter"}, {"PushConfig", "PushEndpoint", "PushEndpoint"},
+		{"DeadLetterPolicy", "MaxDeliveryAttempts", "MaxDeliveryAttempts"},
+		{"RetryPolicy", "MinimumBackoff", "MinBackoff"}, {"RetryPolicy", "MaximumBackoff", "MaxBackoff"},
+		{"Subscription", "MessageRetentionDuration", "MessageTTL"}, {"ExpirationPolicy", "Ttl", "TTL"},
+	} {
+		for _, st := range fieldStores(fn, pbPkg, sp.typ)[sp.field] {
+			if !sources(st.Val)["field:"+sp.own] {
+				continue
+			}
+			n++
+			bad := ""
+			for _, cd := range edgeConds(st.Block()) {
+				src := sources(cd.V)
+				for _, y := range cols {
+					if y != sp.own && nested[sp.own] != y && src["field:"+y] && !src["field:"+sp.own] {
+						bad = y
+					}
+				}
+			}
+			r.Check("C17.1", fmt.Sprintf("C17.1:independent:%s.%s@%s", sp.typ, sp.field, c.Key(st.Parent())), st.Pos(), bad == "", "", sp.typ+"."+sp.field+" is reported only when the unrelated column "+bad+" is also set: a subscription configured with "+sp.own+" alone reads back without it")
+		}
+	}
+	if n < 4 {
+		r.Fail("C17.1", "C17.1:independent-floor", fn.Pos(), fmt.Sprintf("only %d read-back stores found (≥4 expected)", n))
+	}
+}
+
+// ---------------------------------------------------------------------------
+// C16.4: the effective page size of every List handler is at least 1 for every request value. The handlers index the
+// last scanned row under `len(rows) >= pageSize`; with a page size ≤ 0 (a negative page_size let through) that test
+// holds for an empty result and rows[len(rows)-1] panics — and LIMIT -n means "no limit" on SQLite. Decided from the
+// path-sensitive provenance (K9b) of the LIMIT argument: each alternative is a constant ≥ 1 or a value the path
+// conditions bound below by 1.
+func ruleC16_4(c *Ctx, r *Rep) {
+	n := 0
+	for _, s := range c.EntShape().Stmts {
+		if s.Kind != "select" || !s.HasLimit || s.Limit == nil || !sources(s.Limit)["field:PageSize"] {
+			continue
+		}
+		n++
+		owner := c.Owner(s)
+		key := "C16.4:page-size-positive:" + s.Table + "@" + owner
+		var at ssa.Instruction
+		if refs := s.Limit.Referrers(); refs != nil {
+			for _, u := range *refs {
+				if call, ok := u.(*ssa.Call); ok && call.Call.StaticCallee() != nil && call.Call.StaticCallee().Name() == "Limit" {
+					at = call
+				}
+			}
+		}
+		if at == nil {
+			r.Undecided("C16.4", key, s.Pos, "the LIMIT call using the page size was not found")
+			continue
+		}
+		alts, ok := provenanceThroughClosures(c, at.Parent(), at, s.Limit, 0)
+		if !ok || len(alts) == 0 {
+			r.Undecided("C16.4", key, s.Pos, "the page size's provenance could not be enumerated")
+			continue
+		}
+		bad := ""
+		for _, a := range alts {
+			if !boundedBelow(a, 1) {
+				bad = valKey(a.leaf)
+				if os.Getenv("MB_DEBUG_PROV") != "" {
+					fmt.Fprintf(os.Stderr, "C16.4 %s: leaf=%s alias=%v\n", owner, valKey(a.leaf), a.alias)
+					for _, cd := range a.conds {
+						fmt.Fprintf(os.Stderr, "   cond %v %s\n", cd.Pol, cd.V)
+					}
+				}
+			}
+		}
+		r.Check("C16.4", key, at.Pos(), bad == "", "LIMIT ≥ 1 on every path", "the page size can be "+bad+" on a path that does not bound it below by 1: a negative page_size reaches LIMIT and the `len(rows) >= pageSize` test, and rows[len(rows)-1] panics on an empty result")
+	}
+	r.Floor("C16.4", n, 4)
+}
+
+// boundedBelow: the alternative's leaf is a constant ≥ lo, or one of its path conditions compares the same value
+// (by access path) with a constant so that leaf ≥ lo follows.
+func boundedBelow(a provAlt, lo int64) bool {
+	if k, ok := constInt(a.leaf); ok {
+		return k >= lo
+	}
+	lk := valKey(a.leaf)
+	for _, cd := range a.conds {
+		bo, ok := cd.V.(*ssa.BinOp)
+		if !ok {
+			continue
+		}
+		op, x, y := bo.Op, bo.X, bo.Y
+		if _, isC := constInt(x); isC {
+			// const OP x  ==  x OP' const
+			x, y = y, x
+			switch op {
+			case token.LSS:
+				op = token.GTR
+			case token.LEQ:
+				op = token.GEQ
+			case token.GTR:
+				op = token.LSS
+			case token.GEQ:
+				op = token.LEQ
+			}
+		}
+		k, isC := constInt(y)
+		same := valKey(x) == lk
+		for _, al := range a.alias {
+			if strip(x) == al {
+				same = true
+			}
+		}
+		if !isC || !same {
+			continue
+		}
+		switch {
+		case op == token.GTR && cd.Pol && k >= lo-1,
+			op == token.GEQ && cd.Pol && k >= lo,
+			op == token.LEQ && !cd.Pol && k >= lo-1,
+			op == token.LSS && !cd.Pol && k >= lo,
+			op == token.EQL && cd.Pol && k >= lo:
+			return true
+		}
+	}
+	return false
+}
+
+// ---------------------------------------------------------------------------
+// C11.9: a pull that found candidates answers; it never falls back into the "nothing found" wait. The wait is entered
+// when the action's result cell is still nil after the transaction, so: the cell is written only by applyResults, and
+// never with nil. (A caller parked in the wait keeps the byte / message budget it was started with; the streamer
+// cannot re-run it with the capacity freed meanwhile, so it stalls with capacity and messages both available.)
+func ruleC11_9(c *Ctx, r *Rep) {
+	n := 0
+	for _, f := range c.Funcs {
+		if c.PkgOf(f) != "actions" || c.testSupport(f) {
+			continue
+		}
+		for _, b := range f.Blocks {
+			for _, in := range b.Instrs {
+				st, ok := in.(*ssa.Store)
+				if !ok {
+					continue
+				}
+				fa, ok := st.Addr.(*ssa.FieldAddr)
+				if !ok || fieldName(fa.X.Type(), fa.Field) != "results" {
+					continue
+				}
+				// the result cell of the pull action (actionBase[GetSubscriptionMessagesParams, …])
+				if !strings.Contains(fa.X.Type().String(), "getSubscriptionMessagesResults") && !strings.Contains(fa.X.Type().String(), "GetSubscriptionMessages") {
+					continue
+				}
+				n++
+				cst, isC := strip(st.Val).(*ssa.Const)
+				isNil := isC && cst.Value == nil
+				okOwner := c.partOf(f, fnPullApply, 0)
+				r.Check("C11.9", fmt.Sprintf("C11.9:result-cell#%d@%s", n, c.Key(top(f))), st.Pos(), okOwner && !isNil, "the pull's result is set by applyResults, never reset", "the pull's result cell is reset (or written outside applyResults): a pull that had candidates falls into the nothing-found wait and parks with its stale budget while capacity and messages are both available")
+			}
+		}
+	}
+	r.Floor("C11.9", n, 1)
+}
+
+// ---------------------------------------------------------------------------
+// C08.7: the filter package (validation and evaluation of client-supplied filter text) contains no index or slice
+// operation whose bounds the compiler cannot prove. Decided by the compiler's own prove pass (the SSA back end run with
+// -d=ssa/check_bce: it lists every bounds check it had to keep), over the same overlay the rest of the run analyses —
+// nothing is executed. Today the package has none, so every index into filter text or into the parse tree is
+// statically in range; a kept check in this package is an index computed from the input (an offset, a length) that
+// can panic, and the server has no recovery interceptor. Stricter than the property (a kept check may be safe for a
+// reason the prove pass does not see): such a site is reported as undecided, with the site named.
+func ruleC08_7(c *Ctx, r *Rep) {
+	r.ExpectControl("C08.7")
+	tmp, err := os.MkdirTemp("", "mbcheck-bce-")
+	if err != nil {
+		r.Undecided("C08.7", "C08.7:compile", token.NoPos, "no scratch directory: "+err.Error())
+		return
+	}
+	defer os.RemoveAll(tmp)
+	repl := map[string]string{}
+	i := 0
+	for p, b := range c.Overlay {
+		i++
+		f := filepath.Join(tmp, fmt.Sprintf("ov%d.go", i))
+		if err := os.WriteFile(f, b, 0o644); err != nil {
+			r.Undecided("C08.7", "C08.7:compile", token.NoPos, err.Error())
+			return
+		}
+		repl[p] = f
+	}
+	oj, _ := json.Marshal(map[string]any{"Replace": repl})
+	ovf := filepath.Join(tmp, "overlay.json")
+	os.WriteFile(ovf, oj, 0o644)
+	cmd := exec.Command("go", "build", "-overlay="+ovf, "-gcflags=-d=ssa/check_bce/debug=1", "./filter/")
+	cmd.Dir = c.RepoDir
+	cmd.Env = append(os.Environ(), c.BuildEnv...)
+	out, runErr := cmd.CombinedOutput()
+	re := regexp.MustCompile(`^(filter/[^:\s]+\.go):(\d+):(\d+): Found (IsInBounds|IsSliceInBounds)`)
+	n, other := 0, 0
+	seen := map[string]int{}
+	for _, ln := range strings.Split(string(out), "\n") {
+		m := re.FindStringSubmatch(strings.TrimPrefix(ln, "./"))
+		if m == nil {
+			if strings.Contains(ln, "Found Is") {
+				other++
+			}
+			continue
+		}
+		line, _ := strconv.Atoi(m[2])
+		col, _ := strconv.Atoi(m[3])
+		abs := filepath.Join(c.RepoDir, m[1])
+		pos := token.NoPos
+		c.Fset.Iterate(func(f *token.File) bool {
+			if f.Name() == abs && line <= f.LineCount() {
+				pos = f.LineStart(line) + token.Pos(col-1)
+				return false
+			}
+			return true
+		})
+		where := m[1]
+		for _, f := range c.Funcs {
+			if syn := f.Syntax(); syn != nil && pos.IsValid() && syn.Pos() <= pos && pos < syn.End() && f.Parent() == nil {
+				where = c.Key(f)
+			}
+		}
+		seen[where+m[4]]++
+		n++
+		r.Undecided("C08.7", fmt.Sprintf("C08.7:kept-bounds-check:%s#%d@%s", m[4], seen[where+m[4]], where), pos, "the compiler cannot prove this index / slice expression in range ("+m[4]+"): in the filter package the operands come from the client's filter text or its parse positions, so it may panic on some input — and a panic takes the server down (no recovery interceptor)")
+	}
+	if runErr != nil && n == 0 && other == 0 {
+		r.Undecided("C08.7", "C08.7:compile", token.NoPos, "compiling ./filter with bounds-check reporting failed: "+strings.TrimSpace(string(out)))
+		return
+	}
+	if other == 0 {
+		// the generic parser instantiated in this package always keeps some checks: seeing none means the flag was ignored
+		r.Undecided("C08.7", "C08.7:compile", token.NoPos, "the compiler reported no kept bounds check at all (not even in the instantiated parser library): the report flag had no effect")
+		return
+	}
+	r.OK("C08.7", "C08.7:filter-package-bounds-proved", token.NoPos, fmt.Sprintf("compiler prove pass: %d kept bounds checks in package filter's own sources (%d in library code instantiated there, not counted)", n, other))
 }
